@@ -210,6 +210,17 @@ def check(chk):
         ok = len(run) == 1 and bool(idx) and all(x.id not in mc.reachable([run[0].id], include_start=False) for x in idx + pre) and len(pre) >= 2 and all(mc.dominates(x.id, run[0].id) for x in pre)
         chk.ob("DOM-32", "%s() cancels the pending step, rebases the clock and moves the index before it runs the step (once, last)" % name, ok, m.where(),
                construct=m.ident, text=name + " order")
+        # relative moves are relative: the index is added to / subtracted from (the step that runs next is index + 1, hence the -1 / +1);
+        # only advance(show_step=N) sets it absolutely, to N - 1
+        for x in idx:
+            a = x.ast
+            if isinstance(a, ast.AugAssign):
+                want = ("Add", "steps-1") if name == "advance" else ("Sub", "steps+1")
+                okx = (type(a.op).__name__, src(a.value).replace(" ", "")) == want
+            else:
+                okx = name == "advance" and src(a.value).replace(" ", "") == "show_step-1" and mc.guards_at(x.id).get("show_step is not None") is True
+            chk.ob("DOM-32", "%s() moves the index relative to where the show is (absolute only for an explicit show_step)" % name, okx, m.where(a),
+                   detail=src(a), construct=m.ident, text="%s index move %s" % (name, src(a)))
     sp = rs.methods["_start_play"]
     spc = sp.cfg()
     ok = any(b.kind == "branch" and src(b.ast) == "self._stopped" for b in spc.nodes)
@@ -445,6 +456,7 @@ def battery():
         M("pending start callback only while the start timer is pending", SH, "        if self.start_callback:\n            self.start_callback()\n            self.start_callback = None\n\n        self._remove_delay_handler()\n\n        # clear context in used players", "        if self._delay_handler:\n            if self.start_callback:\n                self.start_callback()\n                self.start_callback = None\n            self._remove_delay_handler()\n\n        # clear context in used players", "PAIR-20"),
         M("twin: pending step removed only when there is one", SH, "        self._remove_delay_handler()\n\n        # clear context in used players", "        if self._delay_handler:\n            self._remove_delay_handler()\n\n        # clear context in used players", None),
         M("step_back runs the step before it moves the index", "mpf/assets/show.py", "        self.next_step_index -= steps + 1\n\n        self._run_next_step(post_events=self.show_config.events_when_stepped_back)", "        self._run_next_step(post_events=self.show_config.events_when_stepped_back)\n        self.next_step_index -= steps + 1", "DOM-32"),
+        M("advance(steps=n) jumps to an absolute step", "mpf/assets/show.py", "            self.next_step_index += steps - 1", "            self.next_step_index = steps - 1", "DOM-32"),
     ]
 
 
